@@ -124,6 +124,8 @@ def run(res, tier, rng, table_diffs=()):
             inputs.append(("arg-counts", "%s(%s)" % (b, args)))
         inputs.append(("arg-counts", "functie f(a, b) { a }; f(%s)" % args))
         inputs.append(("arg-counts", "print(\"%s\", %s)" % ("{} " * min(n, 40), args) if n else "print()"))
+    from .. import gen2
+    inputs += gen2.operand_height_programs()
     n = 3000 if tier == "quick" else 100000
     for _ in range(n):
         inputs.append(("tokens", " ".join(rng.pick(VOCAB) for _ in range(rng.range(1, 14)))))
@@ -190,6 +192,18 @@ def run(res, tier, rng, table_diffs=()):
                           no_input=True)
     if fuel:
         res.violation("the model's front end ran out of fuel (fuel bound not sufficient)", dict(kind="fuel", count=fuel, unchecked="parse fuel sufficiency"), no_input=True)
+    # retained sessions (round 9): whatever a rejected or failed line leaves behind in the retained compiler and machine, no later
+    # line may crash the process (a stale constant index, an open scope, abandoned frames)
+    ss = [x for x in gen2.failure_then_declaration_sessions()] + [x[0] for x in gen2.failed_scope_leak_sessions()] + gen2.declare_then_fail_sessions()
+    sa = core.impl(["session 100000 " + " ".join(hx(l) for l in x) for x in ss], per_request_timeout=30.0)
+    sm = core.model(["session 100000 " + " ".join(hx(l) for l in x) for x in ss], per_request_timeout=60.0)
+    for x, a, m in zip(ss, sa, sm):
+        res.seen("S" + "\n".join(x), nontrivial=True)
+        res.count("session")
+        if (a.startswith(("PANIC", "CRASH", "TIMEOUT")) or "FAULT" in a or "PANIC" in a) and reported < 8:
+            reported += 1
+            res.violation("a line of a retained session crashed the interpreter instead of returning a value or an error",
+                          dict(kind="session-crash", input=x, impl=a[:400], model=m[:400]))
     # K6: native recursion depth (known finding, out-of-process oracle)
     r = core.impl(["eval 1000 " + hx(K6_PROBE)], per_request_timeout=60.0)[0]
     res.seen("K6", nontrivial=True)
@@ -199,6 +213,13 @@ def run(res, tier, rng, table_diffs=()):
 
 
 def replay(res, rp):
+    if rp.get("kind") == "session-crash":
+        a = core.impl(["session 100000 " + " ".join(hx(l) for l in rp["input"])], per_request_timeout=30.0)[0]
+        print(a[:400])
+        if a.startswith(("PANIC", "CRASH", "TIMEOUT")) or "FAULT" in a or "PANIC" in a:
+            print("VIOLATION property=C05 replay=replay")
+            return 1
+        return 0
     t = rp["input"]
     if rp.get("kind") == "native-stack":
         t = K6_PROBE
